@@ -556,11 +556,18 @@ func metricForBudgetOf(oldRule, newRule *Rule, metric *ParamsMetric) *ParamsMetr
 		return t + r.BurstCount
 	}
 	tokenKeys := metric.RuleTokenCounter.Keys()
-	changed := false
-	for _, key := range tokenKeys {
-		if budget(oldRule, key) != budget(newRule, key) {
-			changed = true
-			break
+	// Whether the budget of ANY value differs between the two rules - not only of the values seen so far:
+	// the old controllers stay published while the new ones are built, and a value that one of them sees
+	// for the first time in that moment gets the OLD budget written into its counter. With the caches
+	// shared, the new rule went on deciding on that budget for the rest of the window (threshold lowered
+	// from 1000 to 1: 999 more).
+	changed := oldRule.Threshold != newRule.Threshold || oldRule.BurstCount != newRule.BurstCount || len(oldRule.SpecificItems) != len(newRule.SpecificItems)
+	if !changed {
+		for k, v := range oldRule.SpecificItems {
+			if nv, ok := newRule.SpecificItems[k]; !ok || nv != v {
+				changed = true
+				break
+			}
 		}
 	}
 	if !changed {
